@@ -16,23 +16,14 @@ Print Assumptions C12_capri_total_and_exact.
 
 Theorem C12_capri_only_that_class : forall f l i c c',
   capri f l i = Ok (class_name c) -> is_class c' f l i -> c' = c.
-Proof.
-  intros f l i c c' H H'. rewrite capri_eq_spec in H. injection H as H.
-  apply class_name_inj in H. subst c.
-  exact (is_class_unique _ _ _ _ _ H' (capri_spec_table f l i)).
-Qed.
+Proof. exact capri_only_that_class. Qed.
 Print Assumptions C12_capri_only_that_class.
 
 Theorem C12_capri_monotone : forall f l i f' l' i' c c',
   f <= f' -> l' <= l -> i' <= i ->
   capri f l i = Ok (class_name c) -> capri f' l' i' = Ok (class_name c') ->
   (class_rank c <= class_rank c')%nat.
-Proof.
-  intros f l i f' l' i' c c' Hf Hl Hi H H'.
-  rewrite capri_eq_spec in H, H'. injection H as H. injection H' as H'.
-  apply class_name_inj in H, H'. subst c c'.
-  exact (capri_spec_monotone _ _ _ _ _ _ Hf Hl Hi).
-Qed.
+Proof. exact capri_monotone. Qed.
 Print Assumptions C12_capri_monotone.
 
 (* on every threshold (non-vacuity: concrete points, including all three coordinates on a boundary) *)
